@@ -144,7 +144,11 @@ Section GenRun.
     match interpolate_fwd ginv cf st0 st1 t with
     | None => None
     | Some (ip, sf, ifr) =>
-      Some (enc_post cf (st_post ip) ++ enc_post cf (st_post sf) ++ enc_post cf (st_post ifr))
+      (* posteriors of the three returned states, then their bookkeeping:
+         squared output scale per block, squared running scale, #data, #steps *)
+      let book (st : @sstate F) := st_out2 st ++ [fnat (st_nsteps st)] in
+      Some (enc_post cf (st_post ip) ++ enc_post cf (st_post sf) ++ enc_post cf (st_post ifr)
+            ++ book ip ++ book sf ++ book ifr)
     end.
 
   (* ---- C05/C03: exact Gaussian smoothing on the union of step ends and
